@@ -3,6 +3,7 @@ package main
 import (
 	"bytes"
 	"fmt"
+	"os"
 	"sync"
 
 	"go.sia.tech/core/consensus"
@@ -211,6 +212,135 @@ func c13Diamond() {
 			for i, x := range set {
 				if verr := consensus.ValidateV2Transaction(ms, x); verr != nil {
 					run.Violate("c13:txset-invalid:old-basis", fmt.Sprintf("%s: transaction %d of the returned set is not valid at the tip: %v", where, i, verr), map[string]any{"regime": string(reg)})
+					break
+				}
+				ms.ApplyV2Transaction(x)
+			}
+		}
+	}
+}
+
+// c13CrossVersion: in the window where v1 and v2 transactions coexist, the pool holds one of each. Asking for
+// the parents of a transaction that names an output of the *other* version's pooled transaction must neither
+// panic nor return unrelated transactions. And c13StaleBasis: a basis several non-empty blocks behind the tip.
+func c13CrossVersion() {
+	u := univ.NewUniverse("cross-version", univ.RegimeX)
+	k := 0
+	for u.Nodes[k].Height+1 < u.Net.HardforkV2.AllowHeight {
+		k = u.Add(k, 0, nil, nil, fmt.Sprintf("m%d", u.Nodes[k].Height+1))
+	}
+	n := node.New(u)
+	if err := n.CM.AddBlocks(u.Blocks(u.PathTo(k))); err != nil {
+		run.Violate("c13:cross-version-setup", err.Error(), nil)
+		return
+	}
+	L := u.Nodes[k].L
+	tip := n.CM.Tip()
+	a, b := u.As[1], u.As[2]
+	oa, ob := univ.OwnedSC(L, a.Addr), univ.OwnedSC(L, b.Addr)
+	p1 := univ.V1Spend(L.State, a, oa[0], a.Addr, univ.SC(5), univ.SC(1))
+	p2 := univ.V2Spend(L.State, b, ob[0], b.Addr, univ.SC(5), univ.SC(1))
+	if _, err := n.CM.AddPoolTransactions([]types.Transaction{p1}); err != nil {
+		run.Violate("c13:cross-version-setup", "v1 pool txn refused: "+err.Error(), nil)
+		return
+	}
+	if _, err := n.CM.AddV2PoolTransactions(tip, []types.V2Transaction{p2}); err != nil {
+		run.Violate("c13:cross-version-setup", "v2 pool txn refused: "+err.Error(), nil)
+		return
+	}
+	// a v2 transaction naming the v1 transaction's output as an (ephemeral) parent
+	t2 := types.V2Transaction{MinerFee: univ.SC(1), SiacoinInputs: []types.V2SiacoinInput{{Parent: types.SiacoinElement{
+		ID: p1.SiacoinOutputID(0), SiacoinOutput: p1.SiacoinOutputs[0], StateElement: types.StateElement{LeafIndex: types.UnassignedLeafIndex}}}},
+		SiacoinOutputs: []types.SiacoinOutput{{Address: u.As[0].Addr, Value: univ.SC(4)}}}
+	univ.SignV2(L.State, &t2, a)
+	func() {
+		defer func() {
+			if r := recover(); r != nil {
+				run.Violate("c13:panic:txset-cross-version", fmt.Sprintf("V2TransactionSet(tip, v2 txn naming an output of a pooled v1 transaction) panicked: %v", r), nil)
+			}
+		}()
+		run.Add(1, 1, 1, 1)
+		_, set, err := n.CM.V2TransactionSet(tip, t2.DeepCopy())
+		if err == nil {
+			for _, x := range set {
+				if x.ID() == p2.ID() {
+					run.Violate("c13:txset-unrelated-parent", "V2TransactionSet(tip, v2 txn naming an output of a pooled v1 transaction) returned an unrelated pooled v2 transaction as its parent", nil)
+				}
+			}
+		}
+	}()
+	// a v1 transaction naming the v2 transaction's output
+	t1 := univ.V1SpendID(L.State, b, p2.SiacoinOutputID(p2.ID(), 0), p2.SiacoinOutputs[0].Value, u.As[0].Addr, univ.SC(2), univ.SC(1))
+	func() {
+		defer func() {
+			if r := recover(); r != nil {
+				run.Violate("c13:panic:unconfirmed-parents-cross-version", fmt.Sprintf("UnconfirmedParents(v1 txn naming an output of a pooled v2 transaction) panicked: %v", r), nil)
+			}
+		}()
+		run.Add(1, 1, 1, 1)
+		for _, x := range n.CM.UnconfirmedParents(t1) {
+			if x.ID() == p1.ID() {
+				run.Violate("c13:txset-unrelated-parent", "UnconfirmedParents(v1 txn naming an output of a pooled v2 transaction) returned an unrelated pooled v1 transaction", nil)
+			}
+		}
+	}()
+}
+
+func c13StaleBasis() {
+	for _, reg := range []univ.Regime{univ.RegimeX, univ.RegimeV2} {
+		u := univ.NewUniverse("stale-basis", reg)
+		k := 0
+		for u.Nodes[k].Height+1 < u.Net.HardforkV2.AllowHeight+1 || u.Nodes[k].Height < 2 {
+			k = u.Add(k, 0, nil, nil, fmt.Sprintf("m%d", u.Nodes[k].Height+1))
+		}
+		old := k
+		a := u.As[1]
+		// three blocks with transactions of other actors: every proof moves
+		for i := 0; i < 3; i++ {
+			L := u.Nodes[k].L
+			own := univ.OwnedSC(L, u.As[2].Addr)
+			k = u.Add(k, 0, nil, []types.V2Transaction{univ.V2Spend(L.State, u.As[2], own[0], u.As[3].Addr, univ.SC(1), univ.SC(1))}, fmt.Sprintf("busy%d", i))
+			if !u.Nodes[k].Valid {
+				run.Violate("c13:stale-basis-setup", u.Nodes[k].Err, nil)
+				return
+			}
+		}
+		n := node.New(u)
+		if err := n.CM.AddBlocks(u.Blocks(u.PathTo(k))); err != nil {
+			run.Violate("c13:stale-basis-setup", err.Error(), nil)
+			return
+		}
+		Lold, Ltip := u.Nodes[old].L, u.Nodes[k].L
+		tip := n.CM.Tip()
+		own := univ.OwnedSC(Ltip, a.Addr)
+		P := univ.V2Spend(Ltip.State, a, own[0], a.Addr, univ.SC(6), univ.SC(1))
+		if _, err := n.CM.AddV2PoolTransactions(tip, []types.V2Transaction{P}); err != nil {
+			run.Violate("c13:stale-basis-setup", err.Error(), nil)
+			return
+		}
+		var confirmedOld types.SiacoinElement
+		for _, e := range univ.OwnedSC(Lold, a.Addr) {
+			if e.ID == own[1].ID {
+				confirmedOld = e
+			}
+		}
+		C := types.V2Transaction{MinerFee: univ.SC(1), SiacoinInputs: []types.V2SiacoinInput{{Parent: confirmedOld}, {Parent: univ.Ephemeral(P, 0)}}}
+		C.SiacoinOutputs = []types.SiacoinOutput{{Address: u.As[0].Addr, Value: confirmedOld.SiacoinOutput.Value.Add(univ.SC(6)).Sub(univ.SC(1))}}
+		univ.SignV2(Lold.State, &C, a)
+		oldIdx := types.ChainIndex{ID: u.Nodes[old].Block.ID(), Height: u.Nodes[old].Height}
+		run.Add(1, 1, 1, 1)
+		where := fmt.Sprintf("[%s] V2TransactionSet(tip-3, C): C carries a confirmed input proven as of tip-3 and an output of the pooled P (whose proofs are as of the tip)", reg)
+		basis, set, err := n.CM.V2TransactionSet(oldIdx, C.DeepCopy())
+		switch {
+		case err != nil:
+			run.Violate("c13:txset-error:stale-basis", where+": "+err.Error(), map[string]any{"regime": string(reg)})
+		case basis != tip:
+			run.Violate("c13:txset-basis", fmt.Sprintf("%s returned basis %v, tip is %v", where, basis, tip), nil)
+		default:
+			ms := consensus.NewMidState(Ltip.State)
+			for i, x := range set {
+				if verr := consensus.ValidateV2Transaction(ms, x); verr != nil {
+					run.Violate("c13:txset-invalid:stale-basis", fmt.Sprintf("%s: transaction %d of the returned set is not valid at the tip: %v", where, i, verr), map[string]any{"regime": string(reg)})
 					break
 				}
 				ms.ApplyV2Transaction(x)
@@ -628,6 +758,12 @@ func c13Line() *bfs.Violation {
 }
 
 func c13() {
+	if os.Getenv("VERIF_C13_ONLY") == "extras" { // debugging aid
+		c13Diamond()
+		c13CrossVersion()
+		c13StaleBasis()
+		return
+	}
 	depth := 3
 	if run.Thorough() {
 		depth = 4
@@ -655,6 +791,8 @@ func c13() {
 		jobs = append(jobs, c13TwoParents(reg))
 	}
 	c13Diamond()
+	c13CrossVersion()
+	c13StaleBasis()
 	if v := c13Line(); v != nil {
 		run.Violate(v.Signature, v.What, map[string]any{"universe": "line150"})
 	}
